@@ -51,6 +51,13 @@ func batchDigest(bt *skywaytypes.OutgoingTxBatch, compassID []byte) []byte {
 }
 
 func c13(r *core.Run) []*core.Violation {
+	if r.Tape.Draw(4) == 3 {
+		return c13Prune(r)
+	}
+	return c13EvidenceProfile(r)
+}
+
+func c13EvidenceProfile(r *core.Run) []*core.Violation {
 	t := r.Tape
 	cfg := BridgeCfg{Chains: []ChainSpec{{"eth-main", 1}}}
 	if t.Draw(3) == 2 {
@@ -65,8 +72,10 @@ func c13(r *core.Run) []*core.Violation {
 		w.abortNote("C13")
 		return nil
 	}
+	lag := int64([]int{0, 0, 2, 6}[t.Intn(4)]) // slow estimators leave time for confirmations of the original checkpoint
 	for _, p := range w.Pigeons {
 		p.EagerConfirm = t.Draw(2) == 1
+		p.BatchEstimateLag = lag
 	}
 	replayer := w.Users[len(w.Users)-1]
 	published := map[string]bool{}
